@@ -143,9 +143,16 @@ def sym_sigma(L: Logic, name: str):
     return VDict(lambda t: Dm(t), lambda t: VSet(lambda x: Sg(t, x), owned=False), owned=False), [], Probe(name, "nodemap", (Dm, Sg))
 
 
+def sym_family(L: Logic, name: str):
+    """set[frozenset[Variable]] (e.g. worlds: a set of sets of interventions) as an indexed family"""
+    idx = z3.Function(f"{name}.idx", L.Node, L.B)
+    mem = z3.Function(f"{name}.mem", L.Node, L.Node, L.B)
+    return VFam(lambda r: idx(r), lambda r, x: mem(r, x)), [], Probe(name, "family", (idx, mem))
+
+
 _REPO = [None]
 
-BUILDERS = {"tagged_dag": sym_tagged_dag, "nodemap": sym_sigma, "expr": sym_expr, "eseq": sym_eseq, "seq": sym_seq, "bool": sym_bool, "graph": sym_graph, "nodeset": sym_nodeset, "node": sym_node, "digraph": sym_nx,
+BUILDERS = {"family": sym_family, "tagged_dag": sym_tagged_dag, "nodemap": sym_sigma, "expr": sym_expr, "eseq": sym_eseq, "seq": sym_seq, "bool": sym_bool, "graph": sym_graph, "nodeset": sym_nodeset, "node": sym_node, "digraph": sym_nx,
             "ugraph": lambda L, n: sym_nx(L, n, directed=False), "pairs": sym_pairs}
 
 
